@@ -45,12 +45,14 @@ V(id) == Vals[Fam][id]
 \* memo of this family restricted to the argument id of the event, as values
 MemoAt(k) == [a \in ({k} \cap DOMAIN memo[Fam]) |-> V(memo[Fam][a])]
 
-CallOK     == CallConforms(MemoAt(Ev.k), Ev.k, V(Ev.r))
+\* (equal ids denote the same entry of the value table, hence equal values: the judgement is only spelled out on the
+\* values when the ids differ)
+CallOK     == (Ev.k \in DOMAIN memo[Fam] /\ memo[Fam][Ev.k] = Ev.r) \/ CallConforms(MemoAt(Ev.k), Ev.k, V(Ev.r))
 \* Scribble: what was just handed out (h) is unchanged after the caller overwrote its input buffer (s)
-ScribbleOK == ScribbleConforms(V(Ev.h), V(Ev.s))
+ScribbleOK == Ev.h = Ev.s \/ ScribbleConforms(V(Ev.h), V(Ev.s))
 \* returned value i as seen after this call
 \* Stable: result i, re-projected after this call, equals its projection when it was handed out
-RecheckOK(i) == Ev.rc[i] = 0 \/ Stable(ret[i].x, V(ret[i].h), V(Ev.rc[i]))
+RecheckOK(i) == Ev.rc[i] = 0 \/ Ev.rc[i] = ret[i].h \/ Stable(ret[i].x, V(ret[i].h), V(Ev.rc[i]))
 Altered == {i \in 1..Len(ret) : ret[i].ok /\ ~RecheckOK(i)}
 
 Rec(kind, p) == [i |-> c, j |-> j, p |-> p, kind |-> kind]
